@@ -99,6 +99,8 @@ def panic_line(stderr):
 
 
 def main_file(case):
+    if case.get('out'):
+        return sorted(case['out'])[0]
     for k in ('act/action.yml', '.github/workflows/callee.yml', '.github/actionlint.yaml', 'cfg/custom.yaml', WF):
         if k in case['files']:
             return k
@@ -106,7 +108,7 @@ def main_file(case):
 
 
 def show_input(case, limit=1500):
-    b = base64.b64decode(case['files'][main_file(case)])
+    b = base64.b64decode((case.get('out') or case['files']).get(main_file(case)) or case['files'][main_file(case)])
     t = b.decode('utf-8', 'backslashreplace')
     return '%s (%d bytes):\n%s' % (main_file(case), len(b), t if len(t) <= limit else t[:limit] + '\n... [cut]')
 
@@ -347,6 +349,10 @@ def judge_vectors(jd, sd, export_path, vecs, outs, allowed_prop):
             k = 'outcome %s on channel %s is outside the design table Allowed' % (o['o'], v['ch'])
             jd.drift[k] += 1
             jd.drift_ex.setdefault(k, where)
+        if v.get('mode') == 'dirty':
+            # the linted workflow has a diagnostic of its own (so that `ignore` patterns are applied): only the
+            # outcome class is judged
+            continue
         if v['exp'] in ('diag', 'fatal') and o['o'] == 'clean':
             jd.undiagnosed(o, v, source_of(sd, export_path, v)[:1500])
         elif v['exp'] == 'fatal' and o['o'] != 'fatal':
@@ -365,7 +371,7 @@ def variants(vecs, tier, seed):
         v['mode'] = ''
         if v['ch'] == 'reusable' and k % 3 == 0:
             v['mode'] = 'both'
-        if v['ch'] == 'config' and k % 3 == 0:
+        if v['ch'] == 'config' and k % 2 == 0:
             v['mode'] = 'flag'
 
 
@@ -544,6 +550,11 @@ def run(ck, tier):
         export_path = os.path.join(sd, 'export.json')
         json.dump(export, open(export_path, 'w'))
         variants(vecs, tier, seed)
+        # every configuration is also applied to a workflow that HAS a diagnostic (the `ignore` patterns are only
+        # used then); these copies are judged by their outcome class alone
+        vecs += [dict(v, mode='dirty') for v in vecs if v['ch'] == 'config']
+        # anchor cycles in a called workflow are run through both derivations of its interface (file and AST)
+        vecs += [dict(v, mode='' if v['mode'] == 'both' else 'both') for v in vecs if v['ch'] == 'reusable' and v['mut'] == 'cycle']
         outs = run_vectors(sd, export_path, vecs, 'vec-' + cfg.split('.')[0])
         judge_vectors(jd, sd, export_path, vecs, outs, export['propallowed'])
         allvecs += vecs
@@ -642,14 +653,19 @@ def replay(path):
     binary = vplib.build_actionlint()
     harness = vplib.build_harness()
     root = tempfile.mkdtemp(prefix='c01-replay-')
+    outside = tempfile.mkdtemp(prefix='c01-replay-out-')
     try:
+        for rel, b in (case.get('out') or {}).items():
+            p = os.path.join(outside, rel)
+            os.makedirs(os.path.dirname(p), exist_ok=True)
+            open(p, 'wb').write(base64.b64decode(b))
         os.makedirs(os.path.join(root, '.git'))
         os.makedirs(os.path.join(root, '.github', 'workflows'), exist_ok=True)
         for rel, b in case['files'].items():
             p = os.path.join(root, rel)
             os.makedirs(os.path.dirname(p), exist_ok=True)
             open(p, 'wb').write(base64.b64decode(b))
-        argv = [binary] + [a.replace('{ROOT}', root).replace('{SELF}', harness) for a in case['args']]
+        argv = [binary] + [a.replace('{ROOT}', root).replace('{OUT}', outside).replace('{SELF}', harness) for a in case['args']]
         print(' '.join(argv))
         try:
             p = subprocess.run(argv, stdout=subprocess.PIPE, stderr=subprocess.PIPE, timeout=20, stdin=subprocess.DEVNULL)
@@ -667,3 +683,4 @@ def replay(path):
         return 1 if bad else 0
     finally:
         shutil.rmtree(root, ignore_errors=True)
+        shutil.rmtree(outside, ignore_errors=True)
